@@ -65,7 +65,12 @@ OpTable == {
   Op("bad_snippet", Kinds, "same", "self", "none"),
   Op("bad_shift_dims", Kinds, "same", "self", "none"),
   Op("bad_freq_shift_unit", {"dp", "bb"}, "same", "self", "none"),
-  Op("bad_concat_gap", Kinds, "same", "self", "none")
+  Op("bad_concat_gap", Kinds, "same", "self", "none"),
+  \* rows used when validating traces of arbitrary public calls (repository test-suite under the
+  \* external tracer): an ordinary call may write nothing it was given; a ufunc call with out= /
+  \* an in-place operator may write its target (logged as buffer 0)
+  Op("api_call", Kinds, "same", "self", "none"),
+  Op("api_ufunc_out", Kinds, "same", "self", "target")
 }
 
 NewBuf == Cardinality(DOMAIN ver) + 1
